@@ -306,6 +306,7 @@ def full_empty_tests(F, R):
 
 
 def check(F, R, tier):
+    lib.cas_loops_fresh(R, F, r'^iceoryx2_bb_lock_free::spsc::safely_overflowing_index_queue::', 1, 'a decision computed once before the loop is stale after the first failed CAS')
     queue_roles(F, R)
     full_empty_tests(F, R)
     spsc_plain(F, R, IQ, r'IndexQueue::at')
